@@ -24,6 +24,7 @@ import (
 	"github.com/form3tech-oss/f1/v2/internal/options"
 	"github.com/form3tech-oss/f1/v2/internal/verifh/kit"
 	"github.com/form3tech-oss/f1/v2/internal/verifh/runkit"
+	"github.com/form3tech-oss/f1/v2/pkg/f1"
 	f1testing "github.com/form3tech-oss/f1/v2/pkg/f1/testing"
 )
 
@@ -151,7 +152,20 @@ func TestC07Runs(t *testing.T) {
 			}
 		}
 		flags, yaml := runkit.QuickMode(mode, r.Intn(6))
-		cfg := runkit.Config{Mode: mode, Flags: flags, Scenario: scenario, Ctx: context.Background(),
+		// the body is the middle (or last) part of a scenario put together with CombineScenarios:
+		// the parts before it pass, and its outcome is the iteration's outcome all the same
+		combined := i%5 == 2
+		var useScenario f1testing.ScenarioFn = scenario
+		if combined {
+			quiet := func(*f1testing.T) f1testing.RunFn { return func(it *f1testing.T) { it.Cleanup(func() {}) } }
+			if i%2 == 0 {
+				useScenario = f1.CombineScenarios(quiet, scenario, quiet)
+			} else {
+				useScenario = f1.CombineScenarios(quiet, quiet, scenario)
+			}
+			o.Count("scenario", "combined, body not the first part")
+		}
+		cfg := runkit.Config{Mode: mode, Flags: flags, Scenario: useScenario, Ctx: context.Background(),
 			Opts: options.RunOptions{MaxDuration: time.Duration(r.Range(120, 260)) * time.Millisecond,
 				Concurrency: int(r.Range(1, 12)), IgnoreDropped: true, MaxFailuresRate: 100,
 				MaxIterations: uint64(kit.Pick(r, 0, 0, 300))}}
